@@ -11,7 +11,7 @@ from ..core import Case
 
 
 def plan(tier):
-    n = 64 if tier == 'quick' else 2400
+    n = 96 if tier == 'quick' else 2400
     return dict(n_cases=n, shards=16, min_nontrivial=n // 3,
                 min_tags={'geom:cone': n // 8, 'geom:cylinder': n // 8, 'rule:simps2d': n // 8, 'rule:trapz2d': n // 8, 'clause:threads': n // 4},
                 watchdog_s=2400 if tier == 'quick' else 14000,
@@ -128,8 +128,8 @@ def run_case(rng, tier, idx):
     cc.ni_num_cores = threads
     f_b = fint(cu)
     scf = np.abs(f_a) + np.abs(f_b); scf = scf + 1e-6 * scf.max() + 1e-300
-    c.judge('fint independent of the number of integration threads', float((np.abs(f_a - f_b) / scf).max()), 1e-11, data={'threads': [threads, other]})
-    c.judge('kT independent of the number of integration threads', float((np.abs(KT_b - KT) / (scK + 1e-6 * np.abs(KT).max())).max()), 1e-11)
+    c.judge('fint independent of the number of integration threads', float((np.abs(f_a - f_b) / scf).max()), 1e-9, data={'threads': [threads, other]})
+    c.judge('kT independent of the number of integration threads', float((np.abs(KT_b - KT) / (scK + 1e-6 * np.abs(KT).max())).max()), 1e-9)
     # repeatability at fixed configuration (a data race shows up as run-to-run differences)
     f_c = fint(cu)
     c.expect('fint repeatable at a fixed thread count', np.array_equal(f_b, f_c))
